@@ -203,3 +203,241 @@ Example C12_nonvacuous :
   (exists s, effective true e empty_st 18994 = Ok (s, inl LNone7)) /\
   (exists s, effective true e empty_st 19012 = Ok (s, inl LNotYet)).
 Proof. exact CacheProps.c12_example. Qed.
+
+(* ======================================================================
+   "... otherwise an error": the remote fails (Model/RatesFail.v,
+   Proofs/RatesFailProps.v).  A request fails when the HttpRequester returns
+   Err ([RqHttp], error class [FHttp]) or when the body is rejected as a whole
+   by parse_rates_json ([RqDoc], [FDoc]; C12_malformed_document_is_error says
+   which bodies those are). *)
+From ACB Require Import Model.CrashFs Model.RatesFail Proofs.RatesFailProps.
+
+(* For EVERY history and EVERY script of request / cache read / cache write
+   outcomes the history itself never fails, and run by run, look-up by look-up
+   ([history_ok], [lookup_ok]): either all requests made during the look-up
+   succeeded and the answer is the reference answer (= the rule, C12_rule), or
+   the LAST request of the look-up failed and the answer is that request's
+   error (wrapped in the look-back error when it happened there); the years
+   requested successfully in a run are pairwise different. *)
+Theorem C12_remote_failure_is_error :
+  forall (truth : calendar) runs params t0 a0 s0,
+    runsF_ok truth t0 a0 runs params ->
+    CacheRows truth t0 a0 (s_cache (f_s s0)) ->
+    exists s' outs,
+      historyF s0 runs = Ok (s', outs) /\
+      history_ok runs (ref_answers truth (plain_runs runs) params) outs.
+Proof. exact RatesFailProps.history_general. Qed.
+Check C12_remote_failure_is_error :
+  forall (truth : calendar) runs params t0 a0 s0,
+    runsF_ok truth t0 a0 runs params ->
+    CacheRows truth t0 a0 (s_cache (f_s s0)) ->
+    exists s' outs,
+      historyF s0 runs = Ok (s', outs) /\
+      history_ok runs (ref_answers truth (plain_runs runs) params) outs.
+Print Assumptions C12_remote_failure_is_error.
+
+(* what that judgement means for one answer: it is the reference answer or a
+   remote error; it is a remote error EXACTLY when a request made during the
+   look-up failed; an answer that is a rate is the reference's rate (never a
+   stale or zero rate because of a failure) *)
+Theorem C12_remote_failure_answers : forall e refa a new,
+  lookup_ok e refa a new ->
+  (a = lift_ans refa \/ exists err, a = inl err /\ remote_err err) /\
+  ((exists err, a = inl err /\ remote_err err) <-> (exists y, In (y, false) new)) /\
+  (forall x, a = inr x -> refa = inr x /\ all_ok new).
+Proof. exact RatesFailProps.lookup_ok_facts. Qed.
+Check C12_remote_failure_answers : forall e refa a new,
+  lookup_ok e refa a new ->
+  (a = lift_ans refa \/ exists err, a = inl err /\ remote_err err) /\
+  ((exists err, a = inl err /\ remote_err err) <-> (exists y, In (y, false) new)) /\
+  (forall x, a = inr x -> refa = inr x /\ all_ok new).
+Print Assumptions C12_remote_failure_answers.
+
+(* The failure is NOT remembered.  One get_exact_usd_cad_rate step from any
+   reachable loader state: either a request failed -- then the step returns
+   that error and the loader state (year maps, fresh years, cache) is exactly
+   what it was, only the request is logged, so the next look-up that needs the
+   year asks the remote again -- or the step answers like the reference and
+   made at most one, successful, request. *)
+Theorem C12_remote_failure_not_cached :
+  forall (truth : calendar) today avail e s d,
+    runF_ok truth today avail e -> InvF truth today avail s ->
+    exists s' r,
+      exactF e s d = Ok (s', r) /\ InvF truth today avail s' /\
+      ((exists err, r = inl err /\ failed_step e (year_of d) s s' err) \/
+       (r = lift_ans (exact_ref (rem truth avail) today d) /\ quiet_or_dl (year_of d) s s')).
+Proof. exact RatesFailProps.exact_stepF. Qed.
+Check C12_remote_failure_not_cached :
+  forall (truth : calendar) today avail e s d,
+    runF_ok truth today avail e -> InvF truth today avail s ->
+    exists s' r,
+      exactF e s d = Ok (s', r) /\ InvF truth today avail s' /\
+      ((exists err, r = inl err /\ failed_step e (year_of d) s s' err) \/
+       (r = lift_ans (exact_ref (rem truth avail) today d) /\ quiet_or_dl (year_of d) s s')).
+Print Assumptions C12_remote_failure_not_cached.
+
+(* Non-vacuity: on 20 January 2022, 5 January is asked three times: the first
+   request fails in the requester, the second look-up asks AGAIN and gets a
+   body that is no rates document, the third is served; then the look-back of
+   1 January reaches into 2021, whose request fails, and the same look-up
+   repeated asks again and answers (nothing within 7 days). *)
+Example C12_remote_failure_nonvacuous :
+  runsF_ok ex_truth 0 0 exF_runs3 [(19012, 19012)] /\
+  exists s outs,
+    historyF (fstate_of empty_st) exF_runs3 = Ok (s, outs) /\
+    map fo_answers outs =
+      [[(inl FHttp, [(2022, false)]);
+        (inl FDoc, [(2022, false)]);
+        (inr (18997, Qcfrac 30997 10000), [(2022, true)]);
+        (inl (FLookback FHttp), [(2021, false)]);
+        (inl FNone7, [(2021, true)])]].
+Proof. exact RatesFailProps.remote_failure_example. Qed.
+
+(* ======================================================================
+   The remote document layer (Model/RatesJson.v, Proofs/RatesJsonProps.v):
+   parse_rates_json after json::parse, over an abstract JSON value [jv]
+   (number tokens as text: the json crate's u64-mantissa / i16-exponent
+   representation and its Display are modelled; the text -> tree parsing of
+   objects, arrays and strings is a stated hypothesis). *)
+From ACB Require Import Model.RatesJson Proofs.CrashProps Proofs.RatesJsonProps.
+
+(* "Daily (2017+) observations FXCADUSD are inverted, noon (<=2016, IEXE0101)
+   used as published": for EVERY document in the Bank of Canada layout
+   ([boc_doc]: any members before "observations", then one object per
+   observation with "d": "<yyyy-mm-dd>" and "<series>": {"v": "<decimal>"},
+   values positive with at most 28 fractional digits and a 96-bit mantissa,
+   years 0..9999) the members the loop runs over are the observations, their
+   per-observation views are those C12_observations_parse speaks about -- so
+   the hypothesis of C12_rule, "what the remote returns parses to the
+   per-series observation list", holds with [e_remote y := map obs_of_jv
+   (members ..)] of such a document -- and the parsed (date, rate) list is
+   exactly the observations in document order: as published for the noon
+   series, [a_div dec 1 v] (rust_decimal division = fit) for the daily one. *)
+Theorem C12_document_to_observations : forall pre daily l,
+  Forall wf_boc l ->
+  doc_observations (boc_doc pre daily l) = Some (map (boc_obs daily) l) /\
+  map obs_of_jv (map (boc_obs daily) l) = map obs_of_raw (map (fun x => (fst x, daily, dec_value (snd x))) l) /\
+  parse_doc (boc_doc pre daily l) = Some (rates_of_raw (map (fun x => (fst x, daily, dec_value (snd x))) l)) /\
+  (daily = false ->
+   parse_doc (boc_doc pre daily l) = Some (Ok (map (fun x => (fst x, dec_value (snd x))) l))) /\
+  (daily = true -> forall rs,
+   parse_doc (boc_doc pre daily l) = Some (Ok rs) ->
+   Forall2 (fun x r => fst r = fst x /\ a_div dec 1%Qc (dec_value (snd x)) = Ok (snd r)) l rs).
+Proof.
+  intros pre daily l H. split; [ | split; [ | split; [ | split ] ] ].
+  - unfold boc_doc, doc_observations. rewrite RatesJsonProps.obj_get_app_last. reflexivity.
+  - rewrite !map_map. induction H as [| x t Hx Ht IH]; [reflexivity | ].
+    cbn [map]. rewrite IH, (RatesJsonProps.obs_of_boc daily x Hx). reflexivity.
+  - exact (RatesJsonProps.document_to_observations pre daily l H).
+  - intros ->. rewrite (RatesJsonProps.document_to_observations pre false l H).
+    rewrite RatesJsonProps.rates_of_raw_noon. reflexivity.
+  - intros -> rs E. rewrite (RatesJsonProps.document_to_observations pre true l H) in E.
+    inversion E as [E']. exact (RatesJsonProps.rates_of_raw_daily l rs E').
+Qed.
+Check C12_document_to_observations : forall pre daily l,
+  Forall wf_boc l ->
+  doc_observations (boc_doc pre daily l) = Some (map (boc_obs daily) l) /\
+  map obs_of_jv (map (boc_obs daily) l) = map obs_of_raw (map (fun x => (fst x, daily, dec_value (snd x))) l) /\
+  parse_doc (boc_doc pre daily l) = Some (rates_of_raw (map (fun x => (fst x, daily, dec_value (snd x))) l)) /\
+  (daily = false ->
+   parse_doc (boc_doc pre daily l) = Some (Ok (map (fun x => (fst x, dec_value (snd x))) l))) /\
+  (daily = true -> forall rs,
+   parse_doc (boc_doc pre daily l) = Some (Ok rs) ->
+   Forall2 (fun x r => fst r = fst x /\ a_div dec 1%Qc (dec_value (snd x)) = Ok (snd r)) l rs).
+Print Assumptions C12_document_to_observations.
+
+(* Which documents are rejected as a whole (the remote error [RqDoc] of
+   C12_remote_failure_is_error): exactly those whose root is not an object or
+   has no "observations" member -- anything else, including an "observations"
+   that is not an array, is accepted (possibly with no rates).  And no
+   accepted rate comes from a zero or negative value: every (date, rate) of an
+   accepted document is a strictly positive noon value as published, or the
+   rust_decimal quotient 1/q of a strictly positive daily value q (which is
+   not zero for q <= 10^28, C12_inverted_rate_nonzero). *)
+Theorem C12_malformed_document_is_error :
+  (forall root,
+     parse_doc root = None <->
+     (forall o, root <> JObj o) \/ (exists o, root = JObj o /\ obj_get K_OBSERVATIONS o = None)) /\
+  (forall root rs d r,
+     parse_doc root = Some (Ok rs) -> In (d, r) rs ->
+     exists q, (0 < q)%Qc /\ (r = q \/ a_div dec 1%Qc q = Ok r)).
+Proof. split; [exact RatesJsonProps.doc_rejected_iff | exact RatesJsonProps.accepted_rates_positive]. Qed.
+Check C12_malformed_document_is_error :
+  (forall root,
+     parse_doc root = None <->
+     (forall o, root <> JObj o) \/ (exists o, root = JObj o /\ obj_get K_OBSERVATIONS o = None)) /\
+  (forall root rs d r,
+     parse_doc root = Some (Ok rs) -> In (d, r) rs ->
+     exists q, (0 < q)%Qc /\ (r = q \/ a_div dec 1%Qc q = Ok r)).
+Print Assumptions C12_malformed_document_is_error.
+
+(* The malformed shapes inside an accepted document are SKIPPED (the code
+   reports them as non-fatal errors), never turned into a rate: a member that
+   is not an object; no "d", a "d" that is not a string or not a valid date;
+   a series member that is not an object, has no "v", or whose "v" is null / a
+   boolean / an array / an object / not a decimal text / zero / negative --
+   and an unusable noon member makes the observation be skipped even when
+   the daily member is fine. *)
+Theorem C12_malformed_observations_skipped :
+  (forall v, (forall o, v <> JObj o) -> parse_obs (obs_of_jv v) = Ok None) /\
+  (forall o, obj_get K_D o = None -> parse_obs (obs_of_jv (JObj o)) = Ok None) /\
+  (forall o x, obj_get K_D o = Some x -> (forall s, x <> JStr s) -> parse_obs (obs_of_jv (JObj o)) = Ok None) /\
+  (forall o s, obj_get K_D o = Some (JStr s) -> parse_date s = None -> parse_obs (obs_of_jv (JObj o)) = Ok None) /\
+  (forall o, rate_value K_NOON o = JBad -> parse_obs (obs_of_jv (JObj o)) = Ok None) /\
+  (forall o, rate_value K_NOON o = JAbsent -> rate_value K_DAILY o <> JBad ->
+             (exists q, rate_value K_DAILY o = JGood q) \/ parse_obs (obs_of_jv (JObj o)) = Ok None) /\
+  (forall key o x, obj_get key o = Some x -> (forall c, x <> JObj c) -> rate_value key o = JBad) /\
+  (forall key o c, obj_get key o = Some (JObj c) -> obj_get K_V c = None -> rate_value key o = JBad) /\
+  (forall key o c x, obj_get key o = Some (JObj c) -> obj_get K_V c = Some x ->
+                     to_decimal x = None -> rate_value key o = JBad) /\
+  (forall key o c x q, obj_get key o = Some (JObj c) -> obj_get K_V c = Some x ->
+                       to_decimal x = Some q -> (q <= 0)%Qc -> rate_value key o = JBad) /\
+  to_decimal JNull = None /\ (forall b, to_decimal (JBool b) = None) /\
+  (forall l, to_decimal (JArr l) = None) /\ (forall o, to_decimal (JObj o) = None).
+Proof. exact RatesJsonProps.skipped_shapes. Qed.
+Check C12_malformed_observations_skipped :
+  (forall v, (forall o, v <> JObj o) -> parse_obs (obs_of_jv v) = Ok None) /\
+  (forall o, obj_get K_D o = None -> parse_obs (obs_of_jv (JObj o)) = Ok None) /\
+  (forall o x, obj_get K_D o = Some x -> (forall s, x <> JStr s) -> parse_obs (obs_of_jv (JObj o)) = Ok None) /\
+  (forall o s, obj_get K_D o = Some (JStr s) -> parse_date s = None -> parse_obs (obs_of_jv (JObj o)) = Ok None) /\
+  (forall o, rate_value K_NOON o = JBad -> parse_obs (obs_of_jv (JObj o)) = Ok None) /\
+  (forall o, rate_value K_NOON o = JAbsent -> rate_value K_DAILY o <> JBad ->
+             (exists q, rate_value K_DAILY o = JGood q) \/ parse_obs (obs_of_jv (JObj o)) = Ok None) /\
+  (forall key o x, obj_get key o = Some x -> (forall c, x <> JObj c) -> rate_value key o = JBad) /\
+  (forall key o c, obj_get key o = Some (JObj c) -> obj_get K_V c = None -> rate_value key o = JBad) /\
+  (forall key o c x, obj_get key o = Some (JObj c) -> obj_get K_V c = Some x ->
+                     to_decimal x = None -> rate_value key o = JBad) /\
+  (forall key o c x q, obj_get key o = Some (JObj c) -> obj_get K_V c = Some x ->
+                       to_decimal x = Some q -> (q <= 0)%Qc -> rate_value key o = JBad) /\
+  to_decimal JNull = None /\ (forall b, to_decimal (JBool b) = None) /\
+  (forall l, to_decimal (JArr l) = None) /\ (forall o, to_decimal (JObj o) = None).
+Print Assumptions C12_malformed_observations_skipped.
+
+(* Non-vacuity: a daily document of two observations (with a "terms" member
+   before the list) parses to the two inverted rates, a noon document to its
+   value as published; an array root and a root without "observations" are
+   rejected; an "observations" object yields no rates; of two "observations"
+   members the last counts.  Numbers: 0.7, 7e-1, 1, 12.5E1 reach Decimal
+   through their text; a 28-digit fraction given as a NUMBER keeps 19 digits
+   in the u64 mantissa and is printed in `e` notation, which Decimal::from_str
+   rejects, as it does 1e-18; 0, -1.5 and "0.00" are not positive. *)
+Example C12_json_nonvacuous :
+  (Forall wf_boc [(18997, (7812, 4%nat)); (18998, (8, 1%nat))] /\
+   parse_doc ex_daily_doc = Some (Ok [(18997, Qcfrac 12800819252432155657962109575 10000000000000000000000000000);
+                                      (18998, Qcfrac 12500000000000000000000000000 10000000000000000000000000000)]) /\
+   parse_doc ex_noon_doc = Some (Ok [(17164, Qcfrac 13427 10000)]) /\
+   parse_doc (JArr [ex_noon_doc]) = None /\
+   parse_doc (JObj ex_pre) = None /\
+   parse_doc (JObj [(K_OBSERVATIONS, JObj ex_pre)]) = Some (Ok []) /\
+   parse_doc (JObj [(K_OBSERVATIONS, JArr [JNull]); (K_OBSERVATIONS, JArr [boc_obs false (17164, (13427, 4%nat))])])
+     = Some (Ok [(17164, Qcfrac 13427 10000)])) /\
+  (to_decimal (tok [48; 46; 55]%N) = Some (Qcfrac 7 10) /\
+   to_decimal (tok [55; 101; 45; 49]%N) = Some (Qcfrac 7 10) /\
+   to_decimal (tok [49; 101; 45; 49; 56]%N) = None /\
+   to_positive_decimal (tok [48]%N) = None /\
+   to_positive_decimal (tok [45; 49; 46; 53]%N) = None /\
+   to_positive_decimal (JStr [48; 46; 48; 48]%N) = None).
+Proof.
+  split; [exact RatesJsonProps.document_example | ].
+  pose proof RatesJsonProps.number_examples as H. repeat split; apply H.
+Qed.
